@@ -287,7 +287,9 @@ def run_case(c, d):
             c.exception('CORRELATION', exc, dict(feats, fn='CORRELATION'))
             return
         pos = np.asarray(res[0])[ml:]
-        sc = max(float(np.max(np.abs(r2))), 1e-300)
+        # rounding of a lag sum is relative to the energy of its terms (|x||y|), not to a sum that may cancel
+        xf, yf = np.asarray(x, dtype=complex), np.asarray(x if y is None else y, dtype=complex)
+        sc = max(float(np.max(np.abs(r2))), float(np.linalg.norm(xf) * np.linalg.norm(yf)) / NN if d['norm'] != 'coeff' else 0.0, 1e-300)
         c.compare('xcorr-vs-CORRELATION', pos, np.asarray(r2), 1e-9, feats, scale=sc)
 
 
